@@ -375,7 +375,7 @@ func c11Jobs(tier string) []*SeqJob {
 			if ctx.viol != nil {
 				break
 			}
-			ctx.seen = map[string]struct{}{}
+			ctx.ResetSeen()
 		}
 		c11RootTagged = true
 	}
